@@ -1,6 +1,6 @@
 // replay for property C17, harness c17_integrity_k2 (/verif/harness/anapaya-edge-tun/c17_defrag.rs)
 // failed checks reported by CBMC:
-//   "emitted byte not covered by any accepted frame of this packet" @ ../../harness/anapaya-edge-tun/c17_defrag.rs:82:17 in function fragmenting::verif_c17::integrity::<2>
+//   "emitted byte not covered by any accepted frame of this packet" @ ../harness/anapaya-edge-tun/c17_defrag.rs:82:17 in function fragmenting::verif_c17::integrity::<2>
 //! verif-attach: file=crates/libs/anapaya-edge-tun/src/fragmenting.rs crate=anapaya-edge-tun mod=verif_c17
 //!
 //! C17 — tunnel reassembly emits only intact packets, at most once, in any frame order.
@@ -186,7 +186,7 @@ fn integrity_defragmenter<const K: usize, const Q: usize>() {
     std::mem::forget(d);
 }
 
-// verif: prop=C17 tier=thorough cap=3000 mem=24 bound="DefragmenterInner with 2 slots, 3 arbitrary frames over 2 stream offsets" fns="DefragmenterInner::{recv_fallible,select_queue},DefragQueue::*" stubs="prometheus counters inc/inc_by -> no-op"
+// verif: prop=C17 tier=thorough cap=3000 mem=24 cbmc_args="--arrays-uf-always" bound="DefragmenterInner with 2 slots, 3 arbitrary frames over 2 stream offsets" fns="DefragmenterInner::{recv_fallible,select_queue},DefragQueue::*" stubs="prometheus counters inc/inc_by -> no-op"
 #[kani::proof]
 #[kani::unwind(4)]
 #[kani::stub(prometheus::core::GenericCounter::inc, inc_stub)]
@@ -197,7 +197,7 @@ fn c17_interleave_q2_k3() {
 
 /// Totality and bounded state: arbitrary byte strings as frames never panic, never change the
 /// number of slots, and a returned packet never exceeds MAX_PACKET_SIZE.
-fn total<const K: usize, const Q: usize>() {
+fn total<const K: usize, const Q: usize, const FR: usize>() {
     let m = null_defrag_metrics();
     let mut d = DefragmenterInner { queues: Vec::new(), last_histogram_update: unsafe { std::mem::zeroed() } };
     let mut i = 0;
@@ -205,11 +205,17 @@ fn total<const K: usize, const Q: usize>() {
         d.queues.push(DefragQueue::new());
         i += 1;
     }
+    let mut lens = [0usize; K];
+    let mut k = 0;
+    while k < K {
+        lens[k] = kani::any();
+        kani::assume(lens[k] <= FR + 16);
+        k += 1;
+    }
     let bufs: [[u8; PAY + 16]; K] = kani::any();
     let mut k = 0;
     while k < K {
-        let len: usize = kani::any();
-        kani::assume(len <= PAY + 16);
+        let len = lens[k];
         let r = d.recv_fallible(&m, &bufs[k][..len]);
         if let Ok(Some(p)) = &r {
             assert!(p.payload.len() <= MAX_PACKET_SIZE);
@@ -217,54 +223,139 @@ fn total<const K: usize, const Q: usize>() {
         if len < 16 {
             assert!(matches!(r, Err(DefragmentInsertError::InvalidHeader)));
         }
-        kani::cover!(matches!(r, Err(DefragmentInsertError::TooOld(_))), "too-old rejection reachable");
+        kani::cover!(matches!(r, Ok(None)), "frame stored in a slot");
         assert!(d.queues.len() == Q);
         k += 1;
     }
     std::mem::forget(d);
 }
 
-// verif: prop=C17 tier=quick cap=600 bound="2 slots, 3 arbitrary byte strings <= 316 B as frames (incl. shorter than a header)" fns="DefragmenterInner::{recv_fallible,select_queue},FragmentFrameRef::from_slice,DefragQueue::*" stubs="prometheus counters inc/inc_by -> no-op"
+// verif: prop=C17 tier=thorough cap=3000 mem=30 cbmc_args="--arrays-uf-always" bound="2 slots, 3 arbitrary byte strings <= 316 B as frames through recv_fallible (incl. shorter than a header)" fns="DefragmenterInner::{recv_fallible,select_queue},FragmentFrameRef::from_slice,DefragQueue::{init,ingest_frame}" stubs="prometheus counters inc/inc_by -> no-op"
 #[kani::proof]
 #[kani::unwind(4)]
 #[kani::stub(prometheus::core::GenericCounter::inc, inc_stub)]
 #[kani::stub(prometheus::core::GenericCounter::inc_by, inc_by_stub)]
 fn c17_total_q2_k3() {
-    total::<3, 2>()
+    total::<3, 2, 300>()
+}
+
+/// Slot choice from arbitrary slot states (Q slots with arbitrary stream offsets and idle
+/// flags): a frame is refused only when no slot is idle, none carries its stream offset and it
+/// is older than every slot; otherwise the chosen slot carries the frame's stream offset and, if
+/// it was not already that packet's slot, has been re-initialised (empty mask, no sizes).
+fn select_queue_step<const Q: usize>() {
+    let m = null_defrag_metrics();
+    let mut d = DefragmenterInner { queues: Vec::new(), last_histogram_update: unsafe { std::mem::zeroed() } };
+    let mut offs = [0u64; Q];
+    let mut idle = [false; Q];
+    let mut i = 0;
+    while i < Q {
+        let mut q = DefragQueue::new();
+        offs[i] = kani::any();
+        idle[i] = kani::any();
+        q.stream_offset = offs[i];
+        q.idle = idle[i];
+        q.recv_mask = kani::any();
+        q.final_packet_size = if kani::any() { Some(kani::any()) } else { None };
+        q.expected_frames = if kani::any() { Some(kani::any()) } else { None };
+        d.queues.push(q);
+        i += 1;
+    }
+    let so: u64 = kani::any();
+    let h = FragmentFrameHeader { stream_offset: so, frame_offset: kani::any(), flags: kani::any() };
+    let empty: [u8; 0] = [];
+    let f = FragmentFrameRef { header: h, fragment: &empty };
+    let mut existing = false;
+    let mut any_idle = false;
+    let mut older_than_all = true;
+    let mut i = 0;
+    while i < Q {
+        if offs[i] == so {
+            existing = true;
+        }
+        if idle[i] {
+            any_idle = true;
+        }
+        if so >= offs[i] {
+            older_than_all = false;
+        }
+        i += 1;
+    }
+    let r = d.select_queue(&m, &f);
+    match r {
+        None => {
+            kani::cover!(true, "frame refused as too old");
+            assert!(!existing && !any_idle && older_than_all, "frame refused although a slot was available");
+        }
+        Some(q) => {
+            assert!(q.stream_offset == so, "chosen slot carries another packet's stream offset");
+            if !existing {
+                kani::cover!(!any_idle, "busy slot evicted");
+                assert!(!q.idle && q.recv_mask[0] == 0 && q.recv_mask[1] == 0, "re-used slot not re-initialised");
+                assert!(q.final_packet_size.is_none() && q.expected_frames.is_none() && q.frame_window_size.is_none() && q.last_frame_offset.is_none(), "re-used slot keeps sizes of the previous packet");
+                assert!(!(!any_idle && older_than_all), "frame older than every busy slot evicted one");
+            }
+        }
+    }
+    assert!(d.queues.len() == Q, "number of slots changed");
+    std::mem::forget(d);
+}
+
+// verif: prop=C17 tier=quick cap=600 bound="3 slots in arbitrary states, one arbitrary frame header" fns="DefragmenterInner::select_queue,DefragQueue::init" stubs="prometheus counters inc/inc_by -> no-op"
+#[kani::proof]
+#[kani::unwind(5)]
+#[kani::stub(prometheus::core::GenericCounter::inc, inc_stub)]
+#[kani::stub(prometheus::core::GenericCounter::inc_by, inc_by_stub)]
+fn c17_select_queue_q3() {
+    select_queue_step::<3>()
 }
 
 /// Honest sender: a packet of L bytes cut into n = ceil(L/W) frames by the documented protocol
 /// (offset i*W, LAST on the final frame). N deliveries, each of a symbolic frame index (so any
 /// order and any duplication), every frame delivered at least once: the packet comes out exactly
-/// once and byte-identical; nothing else comes out.
-fn honest<const N: usize, const MAXF: usize>() {
-    const WMAX: usize = 258;
-    let w: usize = kani::any();
-    kani::assume(w >= MIN_PAYLOAD_SIZE && w <= WMAX);
+/// once and byte-identical; nothing else comes out. W is the minimum window (256): offsets are
+/// then constants per frame index, which keeps the copies into the 64 KiB slot cheap for CBMC.
+fn honest<const N: usize, const MAXF: usize, const CONTENT: bool>(fixed: Option<[usize; N]>) {
+    const W: usize = MIN_PAYLOAD_SIZE;
     let l: usize = kani::any();
-    kani::assume(l > w && l <= MAXF * w);
-    let n = l.div_ceil(w);
-    let data: [u8; 3 * WMAX] = kani::any();
+    kani::assume(l > W && l <= MAXF * W);
+    let n = l.div_ceil(W);
     let so: u64 = kani::any();
+    let j: usize = kani::any();
+    kani::assume(j < l);
+    let mut order = [0usize; N];
+    let mut t = 0;
+    while t < N {
+        order[t] = match fixed {
+            Some(o) => o[t],
+            None => kani::any(),
+        };
+        kani::assume(order[t] < n);
+        t += 1;
+    }
+    let data: [u8; 4 * W] = kani::any();
     let mut q = DefragQueue::new();
     let mut seen = [false; MAXF];
     let mut emitted = 0usize;
-    let j: usize = kani::any();
-    kani::assume(j < l);
     let mut t = 0;
     while t < N {
-        let i: usize = kani::any();
-        kani::assume(i < n);
+        let i = order[t];
         seen[i] = true;
-        let off = i * w;
-        let len = if i + 1 == n { l - off } else { w };
+        // constant offset per branch
+        let (off, full): (usize, &[u8]) = match i {
+            0 => (0, &data[0..W]),
+            1 => (W, &data[W..2 * W]),
+            2 => (2 * W, &data[2 * W..3 * W]),
+            _ => (3 * W, &data[3 * W..4 * W]),
+        };
+        let len = if i + 1 == n { l - off } else { W };
         let f = FragmentFrameRef {
             header: FragmentFrameHeader {
                 stream_offset: so,
                 frame_offset: off as u16,
                 flags: if i + 1 == n { FragmentFlags::LAST as u16 } else { 0 },
             },
-            fragment: &data[off..off + len],
+            fragment: &full[..len],
         };
         if t == 0 {
             q.init(&f);
@@ -274,7 +365,9 @@ fn honest<const N: usize, const MAXF: usize>() {
                 emitted += 1;
                 assert!(p.stream_offset == so);
                 assert!(p.payload.len() == l, "reassembled length differs from the sent packet");
-                assert!(p.payload[j] == data[j], "reassembled byte differs from the sent packet");
+                if CONTENT {
+                    assert!(p.payload[j] == data[j], "reassembled byte differs from the sent packet");
+                }
                 let mut x = 0;
                 while x < MAXF {
                     if x < n {
@@ -308,11 +401,164 @@ fn honest<const N: usize, const MAXF: usize>() {
     }
 }
 
-// verif: prop=C17 tier=quick cap=900 bound="honest sender, window 256..258, packet of 2..3 frames, 4 deliveries in any order with duplicates" fns="DefragQueue::{init,ingest_frame}" stubs="none (frames built from the module's documented wire protocol)"
+// verif: prop=C17 tier=quick cap=900 bound="honest sender, window 256, packet of 257..768 bytes (2..3 frames), 4 deliveries in any order with duplicates: emitted exactly once, when and only when all frames arrived, with the sent length (contents: c17_honest_bytes_*)" fns="DefragQueue::{init,ingest_frame}" stubs="none (frames built from the module's documented wire protocol)"
 #[kani::proof]
 #[kani::unwind(5)]
 fn c17_honest_f3_n4() {
-    honest::<4, 3>()
+    honest::<4, 3, false>(None)
+}
+
+// verif: prop=C17 tier=thorough cap=3000 mem=24 bound="honest sender, window 256, packet of 257..1024 bytes (2..4 frames), 5 deliveries in any order with duplicates" fns="DefragQueue::{init,ingest_frame}" stubs="none"
+#[kani::proof]
+#[kani::unwind(6)]
+fn c17_honest_f4_n5() {
+    honest::<5, 4, false>(None)
+}
+
+// verif: prop=C17 tier=thorough cap=3000 mem=30 cbmc_args="--arrays-uf-always" bound="honest sender, window 256, packet of 257..768 bytes (2..3 frames), 4 deliveries in any order with duplicates: the emitted packet is byte-identical to the sent one" fns="DefragQueue::{init,ingest_frame}" stubs="none"
+#[kani::proof]
+#[kani::unwind(5)]
+fn c17_honest_bytes_f3_n4() {
+    honest::<4, 3, true>(None)
+}
+
+/// Copy kernel, one step from an arbitrary slot state (arbitrary buffer contents, masks, window,
+/// sizes): an accepted frame writes exactly its fragment at its offset and nothing else; a
+/// rejected frame writes nothing; an emitted packet is the slot's buffer from byte 0.
+/// Together with c17_integrity_* (every emitted position is covered by an accepted frame of the
+/// packet) this gives: every emitted byte is the byte of the latest accepted frame covering it.
+/// The end-to-end byte comparison in one harness (honest::<_, _, true>) exceeds 24 GB in CBMC
+/// because of the symbolic-length copies into the 64 KiB slot, hence the decomposition.
+fn copy_step<const L: usize>() {
+    let so: u64 = kani::any();
+    let mut d = any_frame_params();
+    d.len = L; // fragment length fixed per instantiation: a constant-length copy at a symbolic offset stays cheap
+    let i: usize = kani::any();
+    kani::assume(i < MAX_PACKET_SIZE);
+    let mut q = DefragQueue::new();
+    q.stream_offset = kani::any();
+    q.recv_mask = kani::any();
+    q.idle = kani::any();
+    q.next_frame_offset = kani::any();
+    q.frame_window_size = if kani::any() { Some(kani::any()) } else { None };
+    q.final_packet_size = if kani::any() { Some(kani::any()) } else { None };
+    q.expected_frames = if kani::any() { Some(kani::any()) } else { None };
+    q.last_frame_offset = if kani::any() { Some(kani::any()) } else { None };
+    if let Some(fps) = q.final_packet_size {
+        kani::assume(fps <= MAX_PACKET_SIZE); // set only from offset + len <= MAX_PACKET_SIZE
+    }
+    if let Some(w) = q.frame_window_size {
+        // representation invariant: a window below the minimum is recorded only together with
+        // giving the slot up (idle), and an idle slot accepts nothing until init() clears it
+        kani::assume(w >= MIN_PAYLOAD_SIZE || q.idle);
+    }
+    let seed: u8 = kani::any();
+    let pos: usize = kani::any();
+    kani::assume(pos < MAX_PACKET_SIZE);
+    q.assembly_buffer[pos] = seed; // one arbitrary byte at an arbitrary place: enough to tell "kept" from "zeroed"
+    let buf: [u8; PAY] = kani::any();
+    let old = q.assembly_buffer[i];
+    let f = mk_frame(&buf, so, &d);
+    let base = q.assembly_buffer.as_ptr() as usize;
+    let r = q.ingest_frame(&f);
+    let (accepted, emitted_len) = match &r {
+        Ok(Some(p)) => {
+            assert!(p.payload.as_ptr() as usize == base, "emitted packet does not start at the slot buffer");
+            assert!(p.payload.len() <= MAX_PACKET_SIZE);
+            (true, Some(p.payload.len()))
+        }
+        Ok(None) => (true, None),
+        Err(_) => (false, None),
+    };
+    let _ = emitted_len;
+    let now = q.assembly_buffer[i];
+    if accepted && d.off <= i && i < d.off + d.len {
+        kani::cover!(true, "accepted frame covers the observed byte");
+        assert!(now == buf[i - d.off], "accepted frame's byte not stored at offset + index");
+    } else {
+        kani::cover!(!accepted, "rejected frame");
+        assert!(now == old, "slot byte outside the accepted fragment changed");
+    }
+}
+
+// verif: prop=C17 tier=quick cap=900 cbmc_args="--arrays-uf-always" bound="one ingest step from an arbitrary slot state; fragment of exactly 256 B (the minimum window) at any offset; observed byte anywhere in the 65535-byte slot" fns="DefragQueue::ingest_frame (copy and emission)" stubs="none"
+#[kani::proof]
+#[kani::unwind(3)]
+fn c17_copy_step_l256() {
+    copy_step::<256>()
+}
+
+// verif: prop=C17 tier=quick cap=900 cbmc_args="--arrays-uf-always" bound="one ingest step from an arbitrary slot state; fragment of exactly 7 B (a short last fragment) at any offset" fns="DefragQueue::ingest_frame (copy and emission)" stubs="none"
+#[kani::proof]
+#[kani::unwind(3)]
+fn c17_copy_step_l7() {
+    copy_step::<7>()
+}
+
+/// Completion, one step from an arbitrary slot state (any receive mask, any window >= 256, any
+/// last-frame offset, expected count consistent with them or still unknown): a packet is emitted
+/// only when the last frame and *every* frame index in front of it are in the receive mask, and
+/// its length is the one the last frame announced. With "bit i set => frame i was stored since
+/// init" (c17_copy_step_*, c17_integrity_*) this carries the integrity argument to any number of
+/// frames (up to the 256 the mask can hold), not just the 2-4 frames the sequence harnesses run.
+fn completion_step() {
+    let so: u64 = kani::any();
+    let d = any_frame_params();
+    let b: usize = kani::any();
+    let mut q = DefragQueue::new();
+    q.stream_offset = so;
+    q.idle = false;
+    q.recv_mask = kani::any();
+    let w: usize = kani::any();
+    kani::assume(w >= MIN_PAYLOAD_SIZE && w <= MAX_PACKET_SIZE);
+    let have_w: bool = kani::any();
+    let have_last: bool = kani::any();
+    let lo: u16 = kani::any();
+    let ll: usize = kani::any();
+    kani::assume(ll <= MAX_PACKET_SIZE && lo as usize + ll <= MAX_PACKET_SIZE);
+    q.frame_window_size = if have_w { Some(w) } else { None };
+    q.last_frame_offset = if have_last { Some(lo) } else { None };
+    q.final_packet_size = if have_last { Some(lo as usize + ll) } else { None };
+    // representation invariant: the last-frame bit is set exactly when the last frame is known
+    let last_bit: BitmaskType = 1 << ((MAX_FRAMES - 1) % BITMASK_ENTRY_BITS);
+    kani::assume(((q.recv_mask[BITMASK_ENTRY_COUNT - 1] & last_bit) != 0) == have_last);
+    // middle frames are only stored once the window is known
+    if !have_w {
+        kani::assume(q.recv_mask[0] == 0 && q.recv_mask[1] & !last_bit == 0);
+    }
+    // expected count: known only when window and last frame are, and then consistent with them
+    let have_e: bool = kani::any();
+    if have_w && have_last && have_e {
+        kani::assume(lo as usize % w == 0);
+        q.expected_frames = Some(lo as usize / w + 1);
+    } else {
+        q.expected_frames = None;
+    }
+    let buf: [u8; PAY] = kani::any();
+    let f = mk_frame(&buf, so, &d);
+    if let Ok(Some(p)) = q.ingest_frame(&f) {
+        let plen = p.payload.len();
+        let (Some(wn), Some(lon), Some(fin)) = (q.frame_window_size, q.last_frame_offset, q.final_packet_size) else {
+            assert!(false, "packet emitted without knowing window, last offset and size");
+            return;
+        };
+        kani::cover!(lon as usize / wn >= 130, "packet of more than 130 frames completed");
+        kani::cover!(lon as usize / wn == 1, "two-frame packet completed");
+        assert!(plen == fin, "emitted length differs from the size the last frame announced");
+        assert!(q.recv_mask[BITMASK_ENTRY_COUNT - 1] & last_bit != 0, "packet emitted without its last frame");
+        let frames_before_last = lon as usize / wn;
+        if b < frames_before_last {
+            let bit: BitmaskType = 1 << (b % BITMASK_ENTRY_BITS);
+            assert!(q.recv_mask[b / BITMASK_ENTRY_BITS] & bit != 0, "packet emitted although a frame in front of the last one is missing");
+        }
+    }
+}
+
+// verif: prop=C17 tier=quick cap=900 bound="one ingest step from any slot state with up to 256 frames outstanding (any receive mask, window 256..65535, any last-frame offset/length), one arbitrary frame" fns="DefragQueue::ingest_frame (expected-frame computation and completion test)" stubs="none"
+#[kani::proof]
+#[kani::unwind(4)]
+fn c17_completion_step() {
+    completion_step()
 }
 
 #[cfg(test)]
@@ -320,29 +566,29 @@ mod verif_playback {
     use super::*;
 /// Test generated for harness `fragmenting::verif_c17::c17_integrity_k2` 
 ///
-/// Check for `cover`: "packet completed by the final frame"
+/// Check for `assertion`: ""emitted byte not covered by any accepted frame of this packet""
 
 #[test]
-fn kani_concrete_playback_c17_integrity_k2_10958103555562548733() {
+fn kani_concrete_playback_c17_integrity_k2_12787076961067336482() {
     let concrete_vals: Vec<Vec<u8>> = vec![
         // 18446744073709551615
         vec![255, 255, 255, 255, 255, 255, 255, 255],
-        // 255
-        vec![255, 0, 0, 0, 0, 0, 0, 0],
-        // 300
-        vec![44, 1, 0, 0, 0, 0, 0, 0],
-        // 0
-        vec![0, 0],
-        // 0
-        vec![0],
-        // 65535
-        vec![255, 255],
-        // 224
-        vec![224, 0, 0, 0, 0, 0, 0, 0],
-        // 300
-        vec![44, 1],
+        // 32779
+        vec![11, 128, 0, 0, 0, 0, 0, 0],
+        // 258
+        vec![2, 1, 0, 0, 0, 0, 0, 0],
+        // 36636
+        vec![28, 143],
         // 1
         vec![1],
+        // 65535
+        vec![255, 255],
+        // 284
+        vec![28, 1, 0, 0, 0, 0, 0, 0],
+        // 36352
+        vec![0, 142],
+        // 0
+        vec![0],
         // 65535
         vec![255, 255],
     ];
@@ -350,36 +596,34 @@ fn kani_concrete_playback_c17_integrity_k2_10958103555562548733() {
     concrete_vals.extend(std::iter::repeat(vec![0u8]).take(8192));
     kani::concrete_playback_run(concrete_vals, c17_integrity_k2);
 }
-```
-Concrete playback unit test for `fragmenting::verif_c17::c17_integrity_k2`:
-```
+
 /// Test generated for harness `fragmenting::verif_c17::c17_integrity_k2` 
 ///
-/// Check for `assertion`: ""emitted byte not covered by any accepted frame of this packet""
+/// Check for `cover`: "packet completed by the final frame"
 
 #[test]
-fn kani_concrete_playback_c17_integrity_k2_15935365332118183478() {
+fn kani_concrete_playback_c17_integrity_k2_1255758084215951656() {
     let concrete_vals: Vec<Vec<u8>> = vec![
-        // 18446744073709551615
-        vec![255, 255, 255, 255, 255, 255, 255, 255],
-        // 2
-        vec![2, 0, 0, 0, 0, 0, 0, 0],
-        // 299
-        vec![43, 1, 0, 0, 0, 0, 0, 0],
-        // 3588
-        vec![4, 14],
+        // 0
+        vec![0, 0, 0, 0, 0, 0, 0, 0],
+        // 33024
+        vec![0, 129, 0, 0, 0, 0, 0, 0],
+        // 256
+        vec![0, 1, 0, 0, 0, 0, 0, 0],
+        // 32768
+        vec![0, 128],
         // 0
         vec![0],
         // 65535
         vec![255, 255],
-        // 0
-        vec![0, 0, 0, 0, 0, 0, 0, 0],
-        // 299
-        vec![43, 1],
+        // 190
+        vec![190, 0, 0, 0, 0, 0, 0, 0],
+        // 33024
+        vec![0, 129],
         // 1
         vec![1],
-        // 65535
-        vec![255, 255],
+        // 32769
+        vec![1, 128],
     ];
     let mut concrete_vals = concrete_vals;
     concrete_vals.extend(std::iter::repeat(vec![0u8]).take(8192));
@@ -388,5 +632,6 @@ fn kani_concrete_playback_c17_integrity_k2_15935365332118183478() {
 }
 
 // native replay (sliced trace; cargo kani playback, dev profile, real code):
-//   kani_concrete_playback_c17_integrity_k2_15935365332118183478: did not reproduce (cover:packet completed by the final frame)
+//   kani_concrete_playback_c17_integrity_k2_12787076961067336482: reproduced (emitted byte not covered by any accepted frame of this packet)
+//   kani_concrete_playback_c17_integrity_k2_1255758084215951656: did not reproduce (cover:packet completed by the final frame)
 // re-run: bin/check C17 --replay /verif/replays/C17/c17_integrity_k2.rs
